@@ -12,6 +12,8 @@ use rusl::unix_lit;
 use std::io::{BufRead, Write};
 use std::str::FromStr;
 
+mod fmt_shapes;
+
 extern "C" {
     fn fork() -> i32;
     fn waitpid(pid: i32, status: *mut i32, options: i32) -> i32;
@@ -184,7 +186,65 @@ fn opt_usize(o: Option<usize>) -> String {
     }
 }
 
+/// `formats <lit> <form> <x> <y>` / `join_fmts <a> <lit> <form> <x> <y>` / `fmtshape <lit> <form>`:
+/// the entry points taking `fmt::Arguments`, fed every SHAPE of `Arguments` built around a format
+/// string that is a literal in the harness source (see fmt_shapes.rs)
+fn run_fmt_case(w: &[&str], ga: &Guarded, gb: &Guarded, pl: Place) -> String {
+    let bad = || "bad-op".to_string();
+    let (base, rest) = match (w[0], w.len()) {
+        ("formats", 5) => (None, &w[1..]),
+        ("join_fmts", 6) => (Some(w[1]), &w[2..]),
+        ("fmtshape", 3) => {
+            let Some(lit) = unhex(w[1]) else { return bad() };
+            let (x, y) = match w[2] {
+                "l" => ("", ""),
+                "la" | "al" | "lal" | "a" => ("z", ""),
+                _ => ("z", "z"),
+            };
+            return match fmt_shapes::with(&lit, w[2], x, y, &mut |args| args.as_str().is_some()) {
+                Some(true) => "shape some".to_string(),
+                Some(false) => "shape none".to_string(),
+                None => bad(),
+            };
+        }
+        _ => return bad(),
+    };
+    let (Some(lit), Some(x), Some(y)) = (unhex(rest[0]), unhex(rest[2]), unhex(rest[3])) else { return bad() };
+    let form = rest[1];
+    // the run-time arguments are operands like any other (placed / guarded); the literal is code
+    let x = pl.b(gb, &x);
+    let (Some(x), Some(y)) = (ascii(x), ascii(&y)) else { return bad() };
+    match base {
+        None => match fmt_shapes::with(&lit, form, x, y, &mut |args| UnixString::from_format(args)) {
+            Some(u) => format!("ok {} {}", hex(u.as_slice()), u.len()),
+            None => bad(),
+        },
+        Some(a) => {
+            let Some(a) = unhex(a) else { return bad() };
+            let a = pl.a(ga, &a);
+            // validity of the literal / form / arity is decided before `self` is looked at
+            if fmt_shapes::with(&lit, form, x, y, &mut |_| ()).is_none() {
+                return bad();
+            }
+            let sa = match UnixStr::try_from_bytes(a) {
+                Ok(s) => s,
+                Err(_) => return "reject".to_string(),
+            };
+            match fmt_shapes::with(&lit, form, x, y, &mut |args| sa.path_join_fmt(args)) {
+                Some(u) => format!("ok {} {}", hex(u.as_slice()), u.len()),
+                None => bad(),
+            }
+        }
+    }
+}
+
 fn run_case(w: &[&str], n: u64, ga: &Guarded, gb: &Guarded, pl: Place) -> String {
+    if matches!(w[0], "formats" | "join_fmts" | "fmtshape") {
+        return run_fmt_case(w, ga, gb, pl);
+    }
+    if w.len() > 3 {
+        return "bad-op".to_string();
+    }
     let a = match w.get(1).and_then(|s| unhex(s)) {
         Some(a) => a,
         None => return "bad-op".to_string(),
@@ -417,6 +477,9 @@ fn worker(lines: &[String], first: usize, fd: i32) {
             "bad-op".to_string()
         } else if w[0] == "mode" {
             "ok".to_string()
+        } else if w[0] == "fmtkeys" && w.len() == 1 {
+            // the compiled literal table (rendered bytes), for the check's table-equality observation
+            format!("keys {}", fmt_shapes::keys().iter().map(|k| hex(k)).collect::<Vec<_>>().join(" "))
         } else if w[0] == "dirnames" && w.len() == 2 {
             dirnames(w[1])
         } else {
@@ -428,7 +491,6 @@ fn worker(lines: &[String], first: usize, fd: i32) {
             };
             match pl {
                 None => "bad-op".to_string(),
-                Some(_) if w.len() > 3 => "bad-op".to_string(),
                 Some(pl) => {
                     let n = k as u64;
                     let (ga, gb) = (&ga, &gb);
